@@ -618,7 +618,7 @@ func runC02(c *Ctx) {
 		}
 		wg.Wait()
 	})
-	_ = mu
+
 	shown := 0
 	for i, r := range results {
 		nontrivial := strings.ContainsAny(r.ser, "QOL")
@@ -657,6 +657,24 @@ func runC02(c *Ctx) {
 	if !c.Quick() {
 		nli = 200000
 	}
+	// the parser model (BlockParse.v, InlineParse.v) and the composed Convert model on the spec
+	// examples, on a sample of the generated documents and on the common streams; the regular
+	// expressions regenerated from the code against Go's engine
+	var pitems []docItem
+	for _, e := range loadSpec() {
+		pitems = append(pitems, docItem{"spec", []byte(e.Markdown)})
+	}
+	for i, r := range results {
+		if i%caseEvery == 0 {
+			pitems = append(pitems, docItem{"specdoc", r.md[(i/caseEvery)%4]})
+		}
+	}
+	pitems = append(pitems, collectDocs(c, docOpts{corpus: true, random: nli, randLines: nli, mutants: nli / 2}, nil)...)
+	parserModelCases(c, pitems, 10*nli)
+	for _, e := range loadSpec() {
+		convertCase(c, Cfg{Unsafe: true, XHTML: true}, []byte(e.Markdown))
+	}
+	regexCases(c, nli)
 	listItemCases(c, nli)
 	leafBlockCases(c, 0)
 	delimCases(c, nli)
